@@ -15,25 +15,25 @@ import (
 
 // OblResult is the verdict for one obligation id (possibly several sub-queries).
 type OblResult struct {
-	ID      string   `json:"id"`
-	Fn      string   `json:"fn"`
-	Kind    string   `json:"kind"`
-	Expr    string   `json:"expr,omitempty"`
-	Pos     string   `json:"pos,omitempty"`
-	Props   []string `json:"props"`
-	Status  string   `json:"status"` // discharged, failed, unknown, error
-	Solver  string   `json:"solver,omitempty"`
-	Ms      int64    `json:"ms"`
-	Queries int      `json:"queries"`
-	Detail  string   `json:"detail,omitempty"`
-	MustSat bool     `json:"must_sat,omitempty"`
-	obls    []*Obligation
-	failed  *Obligation
-	query   string
-	queryAlt string
-	q        *Query
+	ID          string   `json:"id"`
+	Fn          string   `json:"fn"`
+	Kind        string   `json:"kind"`
+	Expr        string   `json:"expr,omitempty"`
+	Pos         string   `json:"pos,omitempty"`
+	Props       []string `json:"props"`
+	Status      string   `json:"status"` // discharged, failed, unknown, error
+	Solver      string   `json:"solver,omitempty"`
+	Ms          int64    `json:"ms"`
+	Queries     int      `json:"queries"`
+	Detail      string   `json:"detail,omitempty"`
+	MustSat     bool     `json:"must_sat,omitempty"`
+	obls        []*Obligation
+	failed      *Obligation
+	query       string
+	queryAlt    string
+	q           *Query
 	failedPiece *Term
-	model    string
+	model       string
 }
 
 // FuncReport is the outcome of verifying one function case.
